@@ -13,6 +13,8 @@ import weave  # noqa: E402
 DEFAULT_CHECKS = ['--bounds-check', '--pointer-check', '--signed-overflow-check',
                   '--undefined-shift-check', '--div-by-zero-check', '--pointer-overflow-check']
 GUARD = 'KJN_LBZIP2_VERIF'
+# per-obligation time limits are the measured time on this 16-core sandbox times a generous margin; a slower or busier machine must not turn a proof into 'undecided'
+TIMEOUT_SCALE = float(os.environ.get('VERIF_TIMEOUT_SCALE', '3'))
 
 
 @dataclass
@@ -235,13 +237,14 @@ def build_and_check(ob: Ob, sc: Scratch, want_trace=False) -> Result:
         cb += ['--object-bits', '12']
     if want_trace:
         cb += ['--trace']
-    rc, out, wall = _run(cb, ob.timeout, ob.mem_gb)
+    tmo = int(ob.timeout * TIMEOUT_SCALE)
+    rc, out, wall = _run(cb, tmo, ob.mem_gb)
     cmds.append(' '.join(cb).replace(wd + '/', ''))
     res.cmd = ' && '.join(cmds).replace(sc.dir, '$SCRATCH').replace(VERIF, '/verif')
     res.wall = time.time() - t0
     res.solver_time = wall
     if rc == -999:
-        res.reason = f'timeout after {ob.timeout}s'
+        res.reason = f'timeout after {tmo}s'
         res.log = '\n'.join(log) + '\n' + out[-3000:]
         return res
     try:
